@@ -1,5 +1,7 @@
 import Driver.C07
 import Qryn.LogQL.PlannerMetric
+import Qryn.LogQL.SemMetric
+import Qryn.LogQL.PostMetric
 namespace Driver.C08
 open Qryn Qryn.Sql Qryn.LogQL Driver.C07
 
@@ -73,7 +75,82 @@ def stepName : Step → String
   | .lra _ _ => "lra" | .shortcut _ _ => "shortcut" | .unwrapFn _ _ _ => "unwrapFn" | .agg _ _ => "agg"
   | .topk _ _ => "topk" | .cmp _ => "cmp"
 
+/-! ### concrete oracles for the semantic search: any fixed functions do, both sides use the same ones -/
+def isSub (needle hay : Bytes) : Bool := decide (needle <:+: hay)
+
+def decRat? (s : Bytes) : Option Rat :=
+  let cs := s.map (fun c => Char.ofNat c.toNat)
+  if cs.isEmpty || !(cs.all (fun c => c.isDigit || c == '.')) || (cs.filter (· == '.')).length > 1 then none
+  else
+    let ip := cs.takeWhile (· != '.')
+    let fp := (cs.dropWhile (· != '.')).drop 1
+    if ip.isEmpty then none
+    else some (((digitsVal ip * 10 ^ fp.length + digitsVal fp : Nat) : Int) / ((10 ^ fp.length : Nat) : Int))
+
+/-- label document of the driver: `hex(k):hex(v),hex(k):hex(v)` in ASCII -/
+def docLabels (doc : Bytes) : List (Bytes × Bytes) :=
+  let s := String.ofList (doc.map (fun c => Char.ofNat c.toNat))
+  if s.isEmpty then [] else
+  (s.splitOn ",").filterMap (fun kv => match kv.splitOn ":" with
+    | [k, v] => do some (← ofHex k, ← ofHex v)
+    | _ => none)
+
+/-- an injective stand-in for cityHash64 over label maps -/
+def hashMap (m : List (Bytes × Bytes)) : Int :=
+  let enc := fun (acc : Nat) (bs : Bytes) => bs.foldl (fun a c => a * 259 + (c.toNat + 3)) acc
+  ((m.foldl (fun acc kv => (enc ((enc acc kv.1) * 259 + 1) kv.2) * 259 + 2) 1 : Nat) : Int)
+
+def oracles : Oracles where
+  reMatch := fun pat s => isSub pat s
+  jsonLabels := docLabels
+  isNum := fun s => (decRat? s).isSome
+  numCmp := fun fn s lit => match decRat? s with | some x => ratCmp fn x (numLitRat lit) | none => false
+  lower := fun s => s.map (fun c => if 65 ≤ c ∧ c ≤ 90 then c + 32 else c)
+  toFloat := fun s => (decRat? s).getD 0
+  cityHash := hashMap
+
+def fields (s : String) : List String := s.splitOn ":"
+
+def ginRow? (s : String) : Option GinRow :=
+  match fields s with
+  | [d, k, v, tp, fp] => do some ⟨← ofHex d, ← ofHex k, ← ofHex v, ← tp.toInt?, ← fp.toInt?⟩
+  | _ => none
+def tsRow? (s : String) : Option TsRow :=
+  match fields s with
+  | [d, fp, l, tp] => do some ⟨← ofHex d, ← fp.toInt?, ← ofHex l, ← tp.toInt?⟩
+  | _ => none
+def sample? (s : String) : Option Sample :=
+  match fields s with
+  | [fp, ts, str, tp] => do some ⟨← fp.toInt?, ← ts.toInt?, ← ofHex str, ← tp.toInt?⟩
+  | _ => none
+
+def db? : List String → Option LokiDb
+  | [g, t, s] => do some ⟨← list? ginRow? g, ← list? tsRow? t, ← list? sample? s⟩
+  | _ => none
+
+def showTable (t : Table) : String := hexOut (toString (repr t)).toUTF8.toList
+
+def mentry? (s : String) : Option MEntry :=
+  match fields s with
+  | [fp, l, ts, v] => do some ⟨← fp.toNat?, ← l.toNat?, ← ts.toInt?, ← v.toInt?⟩
+  | _ => none
+def showEntries (es : List MEntry) : String :=
+  if es.isEmpty then "-" else ";".intercalate (es.map (fun e => s!"{e.fp}:{e.lbl}:{e.ts}:{e.value}"))
+
 def handle : List String → Option String
+  | "c08sem" :: args => do
+    let (c, rest) ← mctx? args
+    let (q, rest') ← query? rest
+    let d ← db? rest'
+    let plan := (evalSelA oracles (d.toDbM c) (planMetric c q)).map normRow
+    let spec := evalMetric oracles c d q
+    if plan == spec then some s!"ok {plan.length}"
+    else some s!"diff {showTable plan} {showTable spec}"
+  | "c08post" :: fromNs :: toNs :: step :: d :: es :: [] => do
+    let es ← list? mentry? es
+    let (f, t, st, dd) := (← fromNs.toInt?, ← toNs.toInt?, ← step.toInt?, ← d.toInt?)
+    let w := fixWindow f t dd
+    some s!"{w.1} {w.2} {showEntries (postProcess f t st dd es)}"
   | "c08plan" :: args => do
     let (c, rest) ← mctx? args
     let (q, rest') ← query? rest
